@@ -159,6 +159,8 @@ func runProperty[C any](t *testing.T, prop string, gen func(*rapid.T) C, check f
 		}
 		var wrap struct {
 			Case json.RawMessage `json:"case"`
+			// Repeat re-executes a schedule-dependent reproducer this many times (default 1).
+			Repeat int `json:"repeat"`
 		}
 		if err := json.Unmarshal(raw, &wrap); err != nil || wrap.Case == nil {
 			t.Fatalf("bad replay file %s: %v", rp, err)
@@ -167,9 +169,11 @@ func runProperty[C any](t *testing.T, prop string, gen func(*rapid.T) C, check f
 		if err := json.Unmarshal(wrap.Case, &c); err != nil {
 			t.Fatalf("bad replay case: %v", err)
 		}
-		if msg := check(st, c); msg != "" {
-			st.Fail(c, msg)
-			t.Fatalf("REPLAY-FAIL %s: %s", prop, msg)
+		for i := 0; i < max(1, wrap.Repeat); i++ {
+			if msg := check(st, c); msg != "" {
+				st.Fail(c, msg)
+				t.Fatalf("REPLAY-FAIL %s: %s", prop, msg)
+			}
 		}
 		fmt.Printf("REPLAY-OK %s\n", prop)
 		return
